@@ -39,18 +39,19 @@ ASSUMPTIONS = ["'validated items' = the items an operation may add; items only l
                "pickle"]
 EXHAUSTIVE = {"quick": True, "thorough": True}
 
-F17 = "symdiff-keeps:item-present-only-after-validation"
-F18 = "copy-revalidates:deepcopy-nonidempotent-validator"
+F24 = "symdiff-keeps:item-present-only-after-validation"
+F25 = "copy-revalidates:deepcopy-nonidempotent-validator"
+F26 = "difference_update-partial:later-operand-raises"
 
 
 def corpus():
     return [
-        # F17 (known): pinned by test_ixor_validator_args_with_added
+        # F24 (known): pinned by test_ixor_validator_args_with_added
         "ts|tostr|[i1,i2,i3]|ix S[s2,i3,i4]",
         "ts|toint|[i3]|sy L[s3]",
         # F1 (fixed): deepcopy
         "ts|intonly|[i1,i2]|cp d s9;cp c s9;cp p s9;sw d;ad s1;ad i5",
-        # F18 (known): deepcopy re-validates
+        # F25 (known): deepcopy re-validates
         "ts|inc|[i1]|cp d i0",
         "ts|id|[i1,i2,i3]|ix S[i2,i3,i5];ia S[i1,i2,i3,i0];ud L[i6,i7] G[] L[i12,i8];po i1",
         "ts|mod5|[i1,i2]|ud L[i6,i7] L[] L[i12,i8];io S[i11];io L[i11];rm i6;rm i1;dc i9;cl;cl;po _",
@@ -171,7 +172,7 @@ def _run(case, resolving=False):
     tags = set()
     hits = []
     outs = []
-    resolved = list(texts)
+    resolved = [t if t != "po ?" else "po _" for t in texts]
 
     def finish():
         return " ; ".join(outs), hits, tags, "|".join(line.split("|")[:3] + [";".join(resolved)])
@@ -225,8 +226,15 @@ def _run(case, resolving=False):
             try:
                 c = make_copy(ts, ck)
             except Exception as e:
-                if ck == "d" and not fixed:
-                    hits.append(_hit(F18, "deepcopy re-validates the members: validator is not the identity on them "
+                rv = None
+                for n_, x_ in enumerate(list(ts)):
+                    try:
+                        v.pure(n_, x_)
+                    except Exception as e2:
+                        rv = e2
+                        break
+                if ck == "d" and not fixed and rv is not None and S.exc_name(rv) == S.exc_name(e):
+                    hits.append(_hit(F25, "deepcopy re-validates the members: validator is not the identity on them "
                                      "and the copy raised %s" % S.exc_name(e)))
                 else:
                     hits.append(_hit("copy-raises:" + name, "%s of a TraitSet raised %s: %s" % (
@@ -234,6 +242,8 @@ def _run(case, resolving=False):
                 outs.append("err " + S.exc_name(e))
                 continue
             v.reset()
+            if isinstance(getattr(c, "item_validator", None), S.Validator):
+                c.item_validator.reset()
             if ck == "m":
                 tags.add("copy-method-returns-" + type(c).__name__)
                 if set(c) != snap:
@@ -243,7 +253,7 @@ def _run(case, resolving=False):
             if type(c) is not type(ts):
                 hits.append(_hit("copy-type:" + name, "%s gives a %s" % (name, type(c).__name__)))
             if set(c) != snap:
-                hits.append(_hit(F18 if ck == "d" and not fixed else "copy-differs:" + name,
+                hits.append(_hit(F25 if ck == "d" and not fixed else "copy-differs:" + name,
                                  "%s is not equal to the original" % name, original=_srt(snap), copied=_srt(set(c))))
             if set(ts) != snap or len(ts.notifiers) != 2:
                 hits.append(_hit("copy-disturbs-original:" + name, "the original changed while being copied"))
@@ -257,6 +267,8 @@ def _run(case, resolving=False):
             if k == "sw":
                 outs.append("ok %s - -" % _srt(set(c)))
                 ts = c
+                if isinstance(getattr(c, "item_validator", None), S.Validator):
+                    v = c.item_validator
                 attach(ts)
                 continue
             # probe: the copy still validates
@@ -264,6 +276,7 @@ def _run(case, resolving=False):
             probe = cmd[2]
             try:
                 want, wexc = v.pure(0, probe), None
+                hash(want)
             except Exception as e:
                 want, wexc = None, e
             try:
@@ -301,7 +314,10 @@ def _run(case, resolving=False):
         if exc is not None:
             tags.add("err:" + S.exc_name(exc))
             if after != snap:
-                hits.append(_hit("failed-op-mutated:" + k, "failing %s changed the set" % k,
+                sig = "failed-op-mutated:" + k
+                if k == "du" and len(cmd[1]) > 1 and not calls:
+                    sig = F26
+                hits.append(_hit(sig, "failing %s changed the set%s" % (k, "" if calls else " and notified nobody"),
                                  before=_srt(snap), after=_srt(after)))
             if calls:
                 hits.append(_hit("failed-op-notified:" + k, "failing %s notified" % k))
@@ -322,7 +338,7 @@ def _run(case, resolving=False):
         else:
             if after != ref:
                 f17 = k in ("ix", "sy") and new_items is not None and bool(new_items & snap)
-                hits.append(_hit(F17 if f17 else "contents-differ:" + k,
+                hits.append(_hit(F24 if f17 else "contents-differ:" + k,
                                  "contents differ from the builtin set on validated items",
                                  before=_srt(snap), expected=_srt(ref), observed=_srt(after)))
             if (ret is S.Self) != (rret is S.Self):
